@@ -28,6 +28,11 @@ func init() {
 
 // queryKeys enumerates the query keys of a world state: all kinds; positional kinds at the given stride.
 func queryKeys(w *World, path string, stride int, rng *rand.Rand) []Q {
+	return queryKeysFocus(w, path, stride, rng, "", nil)
+}
+
+// queryKeysFocus: as queryKeys, but every position on the focus lines of the focus file is kept whatever the stride.
+func queryKeysFocus(w *World, path string, stride int, rng *rand.Rand, focusFile string, focus map[int]bool) []Q {
 	qs := []Q{}
 	for _, f := range sortedKeys(w.Docs) {
 		src := []byte(w.Docs[f])
@@ -38,7 +43,7 @@ func queryKeys(w *World, path string, stride int, rng *rand.Rand) []Q {
 		}
 		for _, k := range positional {
 			for i, p := range bs {
-				if stride > 1 && (i+off)%stride != 0 {
+				if stride > 1 && (i+off)%stride != 0 && !(f == focusFile && focus[p.Line]) {
 					continue
 				}
 				qs = append(qs, Q{Kind: k, Path: path, File: f, Pos: p})
@@ -198,6 +203,37 @@ func cmdFrame(fs *flag.FlagSet) {
 
 // topLevelLines returns the 1-based start lines of the top-level items of a native-syntax document
 // (only items that start in column 1), plus the last (empty) line for "append after the last item".
+// atTopLevelAtEOF: the buffer ends outside every bracket, template and heredoc, i.e. text appended on a new line is
+// "after the last item" and not inside one.
+func atTopLevelAtEOF(src []byte) bool {
+	toks, _ := hclsyntax.LexConfig(src, "x.tf", hcl.InitialPos)
+	depth := 0
+	for _, t := range toks {
+		switch t.Type {
+		case hclsyntax.TokenOBrace, hclsyntax.TokenOBrack, hclsyntax.TokenOParen, hclsyntax.TokenOQuote, hclsyntax.TokenOHeredoc,
+			hclsyntax.TokenTemplateInterp, hclsyntax.TokenTemplateControl:
+			depth++
+		case hclsyntax.TokenCBrace, hclsyntax.TokenCBrack, hclsyntax.TokenCParen, hclsyntax.TokenCQuote, hclsyntax.TokenCHeredoc,
+			hclsyntax.TokenTemplateSeqEnd:
+			depth--
+		case hclsyntax.TokenInvalid, hclsyntax.TokenBadUTF8, hclsyntax.TokenQuotedNewline:
+			return false
+		}
+	}
+	return depth == 0
+}
+
+// bodyAnchors: where the parser puts the beginning of the root body before and after the edit
+func bodyAnchors(src, nsrc []byte) [][6]int {
+	f1, _ := hclsyntax.ParseConfig(src, "x.tf", hcl.InitialPos)
+	f2, _ := hclsyntax.ParseConfig(nsrc, "x.tf", hcl.InitialPos)
+	if f1 == nil || f2 == nil {
+		return [][6]int{}
+	}
+	a, b := f1.Body.(*hclsyntax.Body).SrcRange.Start, f2.Body.(*hclsyntax.Body).SrcRange.Start
+	return [][6]int{{a.Byte, a.Line, a.Column, b.Byte, b.Line, b.Column}}
+}
+
 func topLevelLines(src []byte) []int {
 	f, _ := hclsyntax.ParseConfig(src, "x.tf", hcl.InitialPos)
 	if f == nil {
@@ -218,7 +254,7 @@ func topLevelLines(src []byte) []int {
 			set[b.Range().Start.Line] = true
 		}
 	}
-	if len(src) > 0 && src[len(src)-1] == '\n' {
+	if len(src) > 0 && src[len(src)-1] == '\n' && atTopLevelAtEOF(src) {
 		set[strings.Count(string(src), "\n")+1] = true
 	}
 	out := []int{}
@@ -255,37 +291,77 @@ func cmdShift(fs *flag.FlagSet) {
 	seed := fs.Int64("seed", 1, "seed")
 	stride := fs.Int("stride", 5, "position stride")
 	maxIns := fs.Int("maxins", 4, "insertion points per file (0 = all)")
+	prefixStride := fs.Int("prefixes", 0, "also run on every n-th token prefix of every document (0 = documents only)")
 	fs.Parse(os.Args[2:])
 	hangFile = *out + ".hang"
 	startWatchdog(10 * time.Second)
 	rng := rand.New(rand.NewSource(*seed))
 	type job struct {
-		w    *World
+		w    *World // the world with the state's buffer as its document
 		file string
 		at   int
 		ins  string
+		note string
 	}
 	jobs := []job{}
 	for _, wn := range strings.Split(*worlds, ",") {
 		w := worldByName(wn)
+		if w == nil {
+			fatal("no world %q", wn)
+		}
 		for _, f := range sortedKeys(w.Docs) {
 			if strings.HasSuffix(f, ".json") {
 				continue
 			}
-			lines := topLevelLines([]byte(w.Docs[f]))
-			if *maxIns > 0 && len(lines) > *maxIns {
-				rng.Shuffle(len(lines), func(i, j int) { lines[i], lines[j] = lines[j], lines[i] })
-				keep := lines[:*maxIns-1]
-				// always keep the append point
-				last := strings.Count(w.Docs[f], "\n") + 1
-				lines = append(keep, last)
+			// buffer states: the document itself, and what it looked like while it was being typed (token prefixes)
+			states := []StateSpec{{World: w, File: f, Src: []byte(w.Docs[f]), Note: "doc"}}
+			ps := prefixStates(w, f, 1, 0)
+			for i, st := range ps {
+				if *prefixStride > 0 && (i < 3 || (i+int(*seed))%*prefixStride == 0) {
+					states = append(states, st)
+				}
 			}
-			for _, at := range lines {
-				for _, ins := range insertions {
-					if *maxIns > 0 && rng.Intn(2) == 0 && ins != insertions[3] {
-						continue
+			for _, st := range states {
+				src := string(st.Src)
+				nl := strings.Count(src, "\n") + 1
+				isDoc := st.Note == "doc"
+				lines := topLevelLines(st.Src)
+				max := *maxIns
+				if !isDoc && (max == 0 || max > 3) {
+					max = 3
+				}
+				// always: the top of the file, and the append point if the buffer ends at the top level
+				keep := []int{1}
+				appendAt := 0
+				if atTopLevelAtEOF(st.Src) {
+					appendAt = nl
+					if !strings.HasSuffix(src, "\n") {
+						appendAt = nl + 1 // after the last line (which has no terminator yet)
 					}
-					jobs = append(jobs, job{w, f, at, ins})
+					keep = append(keep, appendAt)
+				}
+				rng.Shuffle(len(lines), func(i, j int) { lines[i], lines[j] = lines[j], lines[i] })
+				for _, l := range lines {
+					if (max == 0 || len(keep) < max) && l != 1 && l != appendAt && l <= nl {
+						keep = append(keep, l)
+					}
+				}
+				w2 := *w
+				w2.Docs = map[string]string{}
+				for k, v := range w.Docs {
+					w2.Docs[k] = v
+				}
+				w2.Docs[f] = src
+				for _, at := range keep {
+					for ii, ins := range insertions {
+						if *maxIns > 0 && rng.Intn(2) == 0 && ins != insertions[3] {
+							continue
+						}
+						if !isDoc && ii != 3 && rng.Intn(3) != 0 {
+							continue
+						}
+						jobs = append(jobs, job{&w2, f, at, ins, st.Note})
+					}
 				}
 			}
 		}
@@ -308,7 +384,13 @@ func cmdShift(fs *flag.FlagSet) {
 				j := jobs[ji]
 				src := []byte(j.w.Docs[j.file])
 				off := lineStartOffset(src, j.at)
-				nsrc := append(append(append([]byte{}, src[:off]...), j.ins...), src[off:]...)
+				ins := j.ins
+				if j.at == strings.Count(string(src), "\n")+2 {
+					// appended after an unterminated last line
+					off = len(src)
+					ins = "\n" + strings.TrimSuffix(ins, "\n")
+				}
+				nsrc := append(append(append([]byte{}, src[:off]...), ins...), src[off:]...)
 				dl := strings.Count(j.ins, "\n")
 				db := len(j.ins)
 				before := newEnv(j.w, "p1")
@@ -320,9 +402,10 @@ func cmdShift(fs *flag.FlagSet) {
 					tw.Emit(Event{"ev": "Reset"})
 				}
 				emitInit(tw, j.w)
-				tw.Emit(Event{"ev": "InsertLines", "p": "p1", "f": j.file, "at": j.at, "ins": Lines([]byte(j.ins))[:dl], "dl": dl, "db": db,
-					"lines": Lines(nsrc), "len": len(nsrc), "note": fmt.Sprintf("at:%d ins:%q", j.at, j.ins)})
-				keys := queryKeys(j.w, "p1", *stride, lrng)
+				tw.Emit(Event{"ev": "InsertLines", "p": "p1", "f": j.file, "at": j.at, "ins": Lines([]byte(j.ins))[:dl], "state": j.note, "anch": bodyAnchors(src, nsrc), "dl": dl, "db": db,
+					"lines": Lines(nsrc), "len": len(nsrc), "note": fmt.Sprintf("%s at:%d ins:%q", j.note, j.at, j.ins)})
+				nl := strings.Count(string(src), "\n") + 1
+				keys := queryKeysFocus(j.w, "p1", *stride, lrng, j.file, map[int]bool{1: true, j.at - 1: true, j.at: true, j.at + 1: true, nl - 1: true, nl: true})
 				type agg struct {
 					n, skelDiff, lenDiff int
 					pairs                map[[6]int]bool
